@@ -899,7 +899,7 @@ PROPS = {
     "C18": Prop("C18", [("layoutnames", None), ("tablemisc", None)] + S(["triples"], "max,dir"), {"max", "dir", "cldrversion"}, proj_full, orc_c18,
                 design_ref="4/C18"),
     "C19": Prop("C19", [("serde", None), ("hist", None)], {"serto", "serfrom", "hist", "sernhr"}, proj_c19, orc_c19, design_ref="4/C19"),
-    "C20": Prop("C20", S(["tokens"], "loc") + S(["wf", "near"], "li,loc,lican,loccan,conv,liparts,locparts") + S(["subtag"], "lang,script,region,variant")
+    "C20": Prop("C20", S(["tokens"], "loc") + S(["wf", "near"], "li,listr,loc,locstr,lican,loccan,conv,liparts,locparts") + S(["subtag"], "lang,script,region,variant")
                 + [("hist", None), ("match", None), ("rel", None), ("parts", None), ("pairs", None), ("layoutnames", None)],
                 None, proj_c20, orc_c20, design_ref="4/C20",
                 gen_env={"GEN_LIKELY": "0"},     # histories without maximize/minimize: those calls exist only with the feature
